@@ -197,10 +197,15 @@ def run_unit(unit, variant, multiple_errors=20, extra_args=()):
         # property-level (alarm-worthy) obligations: contract postconditions, and every obligation whose failing site is
         # a line of /repo (overflow, index, unwrap/callee precondition, converted assert!). Auxiliary obligations (loop
         # invariants, hint assertions, lemma preconditions in template text) only make the proof undecided.
-        is_primary = (kind == "postcondition") or origin[0] == "repo"
-        if kind == "postcondition" and tag is None and origin[0] != "repo":
-            # untagged postcondition of a helper lemma in the template
+        in_extracted = any(a <= gl <= bnd for (a, bnd, _n) in b.fn_spans)
+        if tag is not None:
+            is_primary = True            # tagged clause (postcondition, invariant or lemma statement): property-derived
+        elif kind == "postcondition":
+            is_primary = in_extracted    # untagged postcondition of an extracted function; helper lemmas are auxiliary
+        elif kind in ("invariant", "termination"):
             is_primary = False
+        else:
+            is_primary = origin[0] == "repo"   # overflow / index / unwrap / callee precondition / assert! at a line of /repo
         ur.failed.append({"id": oid, "fn": fn, "kind": kind, "message": msg, "gen_line": gl, "origin": where, "primary": is_primary,
                           "rendered": (d.get("rendered") or "")[:3000]})
     ur.lost = list(b.lost)
